@@ -29,10 +29,28 @@ def run(tier, seed):
     from . import c10_extra
 
     c10_extra.run(res, tier, seed)
+    # the registry path: store operations and modified-time queries under max_workers / stale_check_max_workers / retry
+    from . import caching_common as CC
+
+    rule = res.coverage.get("rule", "")
+    tasks = CC.gen_tasks(500 if tier == "quick" else 15000, seed + 303, p_fault=0.6, p_dry=0.0, p_render=0.0)
+    for t in tasks:
+        for st in t["steps"]:
+            if st["op"] == "run" and st.get("retry") is None and (st.get("fail_calls") or st.get("fail_stores")):
+                st["retry"] = 2 + (t["seed"] % 2)
+            if st["op"] == "run":
+                st["slow"] = 0.0003 if t["seed"] % 3 == 0 else 0
+    CC.campaign(res, PROP, tasks, rule)
+    res.coverage["rule"] = rule + ("; plus registry histories with flaky calls / store reads / writes / modified-time queries under retry, "
+                                    "stale_check_max_workers and lingering operations (in-flight accounting of calls + store operations and of modified-time queries)")
     return res
 
 
 def replay(w):
+    if "steps" in w.get("witness", {}).get("task", {}):
+        from . import caching_common as CC
+
+        return CC.replay(PROP, w)
     if w.get("witness", {}).get("kind"):
         from . import c10_extra
 
